@@ -12,8 +12,8 @@ import (
 )
 
 var kOwned = map[string]map[string]bool{
-	"C17": {FKFds: true, FKList: true, FKLeak: true},
-	"C18": {FKEvents: true, FKCreates: true, FKAltern: true, FKErrors: true},
+	"C17": {FKFds: true, FKList: true, FKLeak: true, FKWedge: true},
+	"C18": {FKEvents: true, FKCreates: true, FKAltern: true, FKErrors: true, FKWedge: true},
 }
 
 func kReport(k *KWorld, prop string) []string {
